@@ -130,14 +130,23 @@ func Marshal(w io.Writer, packet interface{}) (n int64, err error) {
 		}
 	}
 	var buf bytes.Buffer
+	var dataCoding byte
 	for i := 0; i < p.NumField(); i++ {
+		abbr := t.Field(i).Tag.Get("TP")
 		switch field := p.Field(i).Addr().Interface().(type) {
 		case *byte:
+			if abbr == "DCS" {
+				dataCoding = *field
+			}
 			buf.WriteByte(*field)
 		case *[]byte:
 			length := len(*field)
 			buf.WriteByte(byte(length))
-			buf.Write(bytes.TrimRight(*field, "\x00"))
+			if abbr == "UD" && countsSeptets(dataCoding) {
+				// TP-UDL counts septets; the field holds that many octets, the packed data zero filled
+				length = (length*7 + 7) / 8
+			}
+			buf.Write((*field)[:length])
 		case io.ByteReader:
 			if flags, ok := field.(*SubmitFlags); ok {
 				flags.ValidityPeriodFormat = validityPeriodFormat
@@ -163,6 +172,21 @@ func Marshal(w io.Writer, packet interface{}) (n int64, err error) {
 		}
 	}
 	return buf.WriteTo(w)
+}
+
+// countsSeptets tells whether TP-UDL counts septets under this data coding scheme
+// (GSM 03.38 section 4: uncompressed default alphabet; reserved codings are read as default alphabet).
+func countsSeptets(dcs byte) bool {
+	switch group := dcs >> 4; {
+	case group < 0b0100:
+		alphabet := dcs >> 2 & 0b11
+		return dcs&0b100000 == 0 && (alphabet == 0b00 || alphabet == 0b11)
+	case group == 0b1110:
+		return false
+	case group == 0b1111:
+		return dcs&0b100 == 0
+	}
+	return true
 }
 
 func getType(buf *bufio.Reader) (kind MessageType, failure bool, err error) {
